@@ -96,7 +96,10 @@ CHECKS += [
          "PROVED too (contracts/c06_tree.py, 55 clauses, all trees): the in-place rewrite logic_detection.infer_or_gate_from_node on pm4py's ProcessTree as "
          "a heap record keeps parent pointers well-formed two levels deep, loses no child and no non-tau branch of an optional XOR, and touches nothing "
          "unless the node is an AND with an optional XOR child (structural only: check_is_or_operator is an arbitrary boolean; ProcessTree(...) and "
-         "str(tree) == 'tau' are trusted models; the same clauses run natively on pm4py trees).",
+         "str(tree) == 'tau' are trusted models; the same clauses run natively on pm4py trees). PROVED too (contracts/c06_feed.py, 47 clauses): the event log "
+         "handed to the miner by create_augmented_data_from_event_sets / ..._from_reduced_event_set / create_data_from_event_sequence has fresh case ids, "
+         "the rows of a case adjacent, each case starting with the start marker, time-ordered and made of the events of its set (str(uuid4()) trusted "
+         "to be new; that the cases are exactly the orderings is a run-time clause, bounded).",
          "DESIGN.md 4/C06"),
     bchk("C09", "BOUNDED (never counted as proved). The contract of find_unique_graphs - for each workflow name the selected traces contain exactly one "
          "member of every call-tree shape class, never two of one class, same answer for every batch size and ingestion order - is evaluated on the real "
